@@ -19,6 +19,13 @@ NA = {
 }
 
 CHECKS = {
+    "C15": dict(
+        category="exploration",
+        text="Seeded search over call histories (construct, fit, transform, set_params(model=/method=), clone, refit on other data, fit with the inner estimator failing by fault plan) on SkBaseTransformLearner, SkBaseTransformStacking and TransferTransformer against executable references: independently built and directly fitted models (hstack for stacking), recording peers for what the wrapped models were trained on, and pickle+prediction digests of the original estimator for the frozen / never-modified clauses.",
+        design_ref="DESIGN.md §4 C15",
+        note="Trusted: wrapped models are recording peers with unchanged signatures; rtol 1e-9; 'chosen method' = last one configured by the user or the wrapper's reported default.",
+        technique="deterministic simulation: generated operation histories with injected inner-fit faults vs executable reference models and state digests",
+    ),
     "C04": dict(
         category="exploration",
         text="Seeded search over operation histories on one fitted estimator against a reference model (row id -> row of the first full-batch output): sub-batches, permutations, single rows, duplicated rows, repeats, interleaved with restarts that keep only durable state (pickle round trip, clone_with_fitted_parameters) and, for classes with n_jobs, calls executed under drawn thread schedules of the baton scheduler. Every returned row is compared with the reference.",
